@@ -355,9 +355,12 @@ CHECKS["C13"]["text"] = ("Deductive lemmas, proved for all maps (contracts/C13_t
 CHECKS["C37"]["text"] = ("Deductive lemma, proved for all offset tables and positions (contracts/C37_offsets.py): "
                          "textbuilder.Replacer.get_input_pos returns the input offset of the last table entry at or "
                          "before the output position plus the distance from it, under the tables' representation "
-                         "invariant (bisect.bisect_right through its assumed contract). " + CHECKS["C37"]["text"])
+                         "invariant (bisect.bisect_right through its assumed contract); the offsets loop of "
+                         "Combiner.__init__ (structural slice, loop invariant, any number of parts) yields one entry "
+                         "per part, entry m+1 = entry m + length of part m, hence the sortedness map_back_patch's "
+                         "bisect calls rely on. " + CHECKS["C37"]["text"])
 CHECKS["C37"]["note"] += ("; that Replacer.__init__ establishes the tables' invariant is covered by the bounded tier "
                           "only (string slicing and sorted() of patches are outside the VC generator)")
 CHECKS["C37"]["engine"] = "pysym+rtc"
-CHECKS["C37"]["technique"] = ("deductive lemma on Replacer.get_input_pos (own AST->SMT VC generator, z3/cvc5) + bounded "
+CHECKS["C37"]["technique"] = ("deductive lemmas on Replacer.get_input_pos and Combiner.__init__'s offsets loop (own AST->SMT VC generator, z3/cvc5) + bounded "
                               "run-time contracts on the real builders (exhaustive small scope + seeded sampling)")
